@@ -48,7 +48,7 @@ def main():
         parts = []
         procs = []
         for i in range(jobs):
-            part = os.path.join(VERIF, "work", "seeded-part-%d.json" % i)
+            part = os.path.join(VERIF, "work", "seeded-part-%d-%d.json" % (os.getpid(), i))
             if os.path.exists(part):
                 os.unlink(part)
             mine = ids[i::jobs]
@@ -66,6 +66,7 @@ def main():
         for part in parts:
             if os.path.exists(part):
                 results.update(json.load(open(part)))
+                os.unlink(part)
         json.dump(results, open(path, "w"), indent=1, sort_keys=True)
         missed = [k for k, v in results.items() if v.get("breaks") and v["breaks"] != "none" and v["breaks"] not in v["caught_by"]]
         noisy = [k for k, v in results.items() if (not v.get("breaks") or v["breaks"] == "none") and v["caught_by"]]
